@@ -176,25 +176,19 @@ theorem firstValidBelow_inRange (y : Int) (m : Nat) (succ : Bool) (n : Nat) (x :
 theorem dateEnd_inRange : minDay ≤ dateEnd ∧ dateEnd ≤ maxDay := by
   have := minDay_eq; have := maxDay_eq; have := Cal.dateEnd_eq; omega
 
-theorem validYmdBefore_inRange (y : Int) (m d : Nat) : minDay ≤ validYmdBefore y m d ∧ validYmdBefore y m d ≤ maxDay := by
-  unfold validYmdBefore
+theorem validYmdBefore_inRange (y : Int) (m d : Nat) (x : Int) (h : validYmdBefore y m d = some x) :
+    minDay ≤ x ∧ x ≤ maxDay := by
+  unfold validYmdBefore at h
   cases hr : ofYmd? y m d with
-  | some r => exact ofYmd?_inRange hr
-  | none =>
-    simp only []
-    cases hf : firstValidBelow y m false (d - 1) with
-    | none => exact dateEnd_inRange
-    | some x => exact firstValidBelow_inRange _ _ _ _ _ hf
+  | some r => rw [hr] at h; cases h; exact ofYmd?_inRange hr
+  | none => rw [hr] at h; exact firstValidBelow_inRange _ _ _ _ _ h
 
-theorem validYmdAfter_inRange (y : Int) (m d : Nat) : minDay ≤ validYmdAfter y m d ∧ validYmdAfter y m d ≤ maxDay := by
-  unfold validYmdAfter
+theorem validYmdAfter_inRange (y : Int) (m d : Nat) (x : Int) (h : validYmdAfter y m d = some x) :
+    minDay ≤ x ∧ x ≤ maxDay := by
+  unfold validYmdAfter at h
   cases hr : ofYmd? y m d with
-  | some r => exact ofYmd?_inRange hr
-  | none =>
-    simp only []
-    cases hf : firstValidBelow y m true (d - 1) with
-    | none => exact dateEnd_inRange
-    | some x => exact firstValidBelow_inRange _ _ _ _ _ hf
+  | some r => rw [hr] at h; cases h; exact ofYmd?_inRange hr
+  | none => rw [hr] at h; exact firstValidBelow_inRange _ _ _ _ _ h
 
 theorem easter_inRange (y : Int) (x : Int) (h : easter y = .ok (some x)) : minDay ≤ x ∧ x ≤ maxDay := by
   simp only [easter] at h
@@ -223,21 +217,17 @@ theorem dateOnYear_total (ds : DateSpec) (_hw : ds.wf = true) (y : Int) (after :
     | none =>
       refine ⟨_, rfl, ?_⟩
       intro x hx
-      simp only [Option.some.injEq] at hx
-      subst hx
       cases after
-      · exact validYmdBefore_inRange _ _ _
-      · exact validYmdAfter_inRange _ _ _
+      · exact validYmdBefore_inRange _ _ _ _ hx
+      · exact validYmdAfter_inRange _ _ _ _ hx
     | some yy =>
       simp only [dateOnYear]
       split
       · refine ⟨_, rfl, ?_⟩
         intro x hx
-        simp only [Option.some.injEq] at hx
-        subst hx
         cases after
-        · exact validYmdBefore_inRange _ _ _
-        · exact validYmdAfter_inRange _ _ _
+        · exact validYmdBefore_inRange _ _ _ _ hx
+        · exact validYmdAfter_inRange _ _ _ _ hx
       · exact ⟨none, rfl, by simp⟩
 
 /-- the value of `dateOnYear` as an `Option` (total function) -/
